@@ -95,6 +95,18 @@ func genMulti(c *Case, r *simrt.Rand, tier string) {
 		}
 		c.Drivers = append(c.Drivers, prog)
 	}
+	if kids && (c.Prop == "C16" || c.Prop == "C17") && r.Chance(0.5) {
+		// a writer of child-only batches: they must be subject to the same
+		// back-pressure as any other batch
+		var prog []Op
+		nb := 3 + r.Intn(2*maxB)
+		for i := 0; i < nb; i++ {
+			cb := &BatchSpec{Ops: []KV{{Op: "set", K: []byte(fmt.Sprintf("k%d", i%3)), V: []byte(fmt.Sprintf("x:%d", i))}}}
+			prog = append(prog, Op{Kind: "childBatch", B: &BatchSpec{Kids: map[string]*BatchSpec{"cx": cb}}})
+		}
+		c.Drivers = append(c.Drivers, prog)
+		c.Flags["childOnlyWriter"] = true
+	}
 	c.Flags["nWriters"] = false
 	c.VerifyAtomic = false
 	c.Opts.MergeOp = false
@@ -294,6 +306,22 @@ func (e *Exec) driver(id int, prog []Op) {
 				e.failD("close-not-final", map[string]string{"symptom": "batch-after-close"},
 					"ExecuteBatch of a non-empty batch invoked after Close returned succeeded (want ErrClosed)")
 			}
+		case "childBatch":
+			if md.closed {
+				return
+			}
+			b, err := e.coll.NewBatch(0, 0)
+			if err != nil {
+				return
+			}
+			e.fillBatch(b, op.B, true)
+			err = e.coll.ExecuteBatch(b, moss.WriteOptions{})
+			b.Close()
+			if err != nil {
+				return
+			}
+			md.kids = true
+			e.probe("child-only-batch")
 		case "notify":
 			if md.closeInv > 0 {
 				continue
